@@ -254,6 +254,9 @@ impl C08 {
         };
         // (one clock counts probes across the whole sequence, so the reuse
         // mode is only meaningful without an expiring deadline)
+        if seq.old.len() > 4000 {
+            out.count("many_cells_cases", 1);
+        }
         let reuse = case.reuse && reusable(case.stack) && case.expire_at.is_none();
         let ok = run_stack2(seq, case.stack, None, case.expire_at, reuse).map_err(pan)?;
         out.execs += 1;
@@ -512,9 +515,22 @@ impl Prop for C08 {
             1 => Size::Medium,
             _ => Size::Large,
         };
-        let seq = gen_seq_case(rng, size, None);
+        let mut seq = gen_seq_case(rng, size, None);
+        crate::gen::maybe_reverse_empty(rng, &mut seq);
+        // very rarely: a differing middle of more than 2^24 cells (LCS)
+        if rng.below(if tier == Tier::Quick { 6_000 } else { 30_000 }) == 0 {
+            let (o, n) = crate::gen::gen_many_cells(rng);
+            seq.old_range = (0, o.len());
+            seq.new_range = (0, n.len());
+            seq.old = o;
+            seq.new = n;
+            seq.index = crate::gen::IndexKind::Slice;
+            seq.alg = crate::gen::Alg::Lcs;
+        }
         let stack = *rng.pick(&STACKS);
-        let expire_at = if rng.chance(3, 10) {
+        let expire_at = if seq.old.len() > 4000 {
+            None
+        } else if rng.chance(3, 10) {
             Some(rng.below(1 + (seq.n() + seq.m()) as u64 / 2))
         } else {
             None
@@ -594,6 +610,7 @@ impl Prop for C08 {
             ("replace_flush_del_ins", agg.hits[27]),
             ("nofinish_forwarded_replace", c("nofinish_forwarded_replace")),
             ("adapter_reused_for_three_diffs", c("adapter_reused_for_three_diffs")),
+            ("cases_with_over_2^24_cells", c("many_cells_cases")),
         ]
     }
 }
